@@ -298,7 +298,7 @@ UNITS += [
 
 KANI = []
 META = {"not_covered": [
-    "merge (blob::tree::merge_trees / merge_nodes): local trait impls, BinaryHeap, `&impl Fn` parameters, mutual recursion",
+    "merge: Tree::from_backend of the inputs and the fill phase of the heap (iterator adapters), which conflicting entry wins beyond 'one of the group' (the caller's cmp closure), the recursion into sub-directories (stub), BinaryHeap semantics (assumed); the heap order, the merge loop and merge_nodes ARE units",
     "what the visitors answer for trees as a whole (pre_process_tree: unreadable trees replaced by empty ones) -- in modify_tree the visitor is a stub with arbitrary answers",
     "copy: selection of the blobs to copy (closures, TreeStreamerOnce); the byte-exact copy itself is C02's BlobCopier units, the ordering C03's copy_tail",
     "'restores identically' / 'union of paths' as whole-command statements",
